@@ -60,6 +60,13 @@ add("C08", "fault_enumeration",
     "fault enumeration over a corpus + property-based/random search (rapid) + native fuzzing (thorough)",
     "DESIGN.md C08")
 
+
+add("C03", "exploration",
+    "Generated-input search on dense integer grids (side 3..6) with geometries built without validation: raw rings/lines (random or angularly sorted lattice points, reused vertices, unclosed rings, repeated vertices), valid geometries traced from triangulated-grid subsets with one breaking edit, shells with holes traced from triangle subsets (touching chains/cycles of holes: multi-touch, nested, disconnected interior), NaN/Inf injection; plus an exhaustive sub-space (every triangle/rectangle on a 4x4 grid as an extra ring, every start vertex and direction). The verdict of Validate (on Geometry and the concrete type) must equal a definitional oracle in exact rational arithmetic and must not change under ring rotation/reversal, hole/member permutation, translation, reflection; IsSimple/IsRing/IsClosed must equal their definitional values; the validating WKT/WKB/GeoJSON/TWKB decoders must accept exactly the valid inputs.",
+    "Trusted: the exact kernel (internal/exact: rational arithmetic, pairwise segment intersection, slab-cell union-find for interior connectedness), unit-tested on hand cases; its invariance under the representation change is asserted per case.",
+    "property-based testing (rapid) + exhaustive small-space enumeration vs an exact-arithmetic definitional oracle; metamorphic representation changes",
+    "DESIGN.md C03")
+
 NOT_YET = "check not built yet in this session (build in progress; see DESIGN.md section 7)"
 manifest = dict(
     version=1,
